@@ -133,7 +133,10 @@ def generate(rng, tier, index, seed):
             "gc": rng.choice([{"mode": "none"}, {"mode": "none"}, {"mode": "bernoulli", "p1024": rng.choice([8, 64]), "seed": rng.below(1 << 30), "max_forced": 300}]),
             "sched": {"default_q": rng.choice([500, 50, 7]), "tick_budget": 60000000, "default_clock_step": 20}}
     if fam in ("b64-encode", "b64-decode"):
-        n = vr.weighted([(vr.range(0, 12), 4), (vr.range(13, 300), 3), (vr.range(2040, 2060), 2), (vr.range(3000, 4096), 1), (vr.range(6140, 6150), 1)])
+        # lengths: short, medium, and within +-4 of small multiples of every block size in play (port buffers 128/4096, the
+        # codec's own encode block 2223 = 3/4 * its decode block 2964), so that padding / partial groups meet block edges
+        edge = max(0, vr.range(1, 3) * vr.choice([128, 1024, 2223, 2223, 2964, 4096]) + vr.range(-4, 4))
+        n = vr.weighted([(vr.range(0, 12), 4), (vr.range(13, 300), 3), (edge, 4), (vr.range(3000, 4096), 1)])
         case["raw"] = rbytes(vr, n).hex()
     elif fam == "json":
         case["json"] = json.dumps(gen_json(vr, vr.range(1, 8)), ensure_ascii=vr.chance(1, 2))
